@@ -6486,6 +6486,12 @@ func (t *Terminal) Loop() error {
 			req(reqList)
 		}
 
+		// The actions bound to backward-eof, jump and jump-cancel can edit the query, too
+		if t.pasting == nil && string(previousInput) != string(t.input) {
+			queryChanged = true
+			changed = true
+		}
+
 		if queryChanged && t.canPreview() && len(t.previewOpts.command) > 0 {
 			_, _, forceUpdate := hasPreviewFlags(t.previewOpts.command)
 			if forceUpdate {
